@@ -47,11 +47,20 @@ pub struct FaultState {
 pub struct FaultSink {
     pub st: Arc<Mutex<FaultState>>,
     pub script: Script,
+    /// the sink has a native gather write (like a socket or pipe): `write_vectored` treats the slices as one buffer, so a
+    /// short count may end in the middle of a later slice.  false: the default `write_vectored` (first non-empty slice only)
+    pub vectored: bool,
 }
 
 impl FaultSink {
     pub fn new(script: Script) -> Self {
-        FaultSink { st: Arc::new(Mutex::new(FaultState::default())), script }
+        // half of the short-write scripts run on a sink with a native gather write (decided by the script, deterministic)
+        let vectored = match &script {
+            Script::Schedule { pattern, .. } => pattern.len() % 2 == 1,
+            Script::FailAtByte { offset, .. } => offset % 2 == 1,
+            _ => false,
+        };
+        FaultSink { st: Arc::new(Mutex::new(FaultState::default())), script, vectored }
     }
 }
 
@@ -140,5 +149,13 @@ impl Write for FaultSink {
     fn flush(&mut self) -> io::Result<()> {
         self.st.lock().unwrap().flushes += 1;
         Ok(())
+    }
+    fn write_vectored(&mut self, bufs: &[io::IoSlice<'_>]) -> io::Result<usize> {
+        if self.vectored {
+            let all: Vec<u8> = bufs.iter().flat_map(|b| b.iter().copied()).collect();
+            return self.write(&all);
+        }
+        let first = bufs.iter().find(|b| !b.is_empty()).map(|b| &**b).unwrap_or(&[][..]);
+        self.write(first)
     }
 }
